@@ -19,6 +19,8 @@
 package types
 
 import (
+	"math/big"
+
 	"github.com/kardiachain/go-kardia/lib/common"
 	"github.com/kardiachain/go-kardia/lib/crypto"
 )
@@ -27,6 +29,13 @@ import (
 // The public key should be in compressed (33 bytes) or uncompressed (65 bytes) format.
 // The signature should have the 64 byte [R || S] format.
 func VerifySignature(addr common.Address, hash, signature []byte) bool {
+	if len(signature) != crypto.SignatureLength {
+		return false
+	}
+	r, s := new(big.Int).SetBytes(signature[:32]), new(big.Int).SetBytes(signature[32:64])
+	if !crypto.ValidateSignatureValues(signature[64], r, s, true) {
+		return false
+	}
 	signPubKey, err := crypto.SigToPub(hash, signature)
 	if signPubKey == nil || err != nil {
 		return false
